@@ -102,10 +102,13 @@ pub fn run(tier: Tier, seed: u64) -> i32 {
 
     // (2c) multi-megabyte inputs (block-wise feeding with a dropped remainder only shows above the block size)
     {
-        let big: Vec<usize> = if tier == Tier::Thorough { vec![(1 << 20) + 1, (1 << 22) + 1, 5_000_000, (1 << 24) + 7, 40_000_003] } else { vec![(1 << 20) + 1, (1 << 22) + 1, 5_000_000] };
+        let big: Vec<usize> = if tier == Tier::Thorough { vec![(1 << 20) + 1, (1 << 22) + 1, 5_000_000, (1 << 24) + 7, 40_000_003, (1 << 32) + 3] } else { vec![(1 << 20) + 1, (1 << 22) + 1, 5_000_000, (1 << 24) + 7] };
         big.par_iter().for_each(|&n| {
             let data: Vec<u8> = (0..n).map(|i| (i as u32).wrapping_mul(2_654_435_761).to_le_bytes()[3]).collect();
-            for c in [[0, 0, 0, 0], [n, n, n, n], [1, 2, 3, n - 1], [n / 5, 2 * (n / 5), 3 * (n / 5), 4 * (n / 5)]] {
+            for (ci, c) in [[0, 0, 0, 0], [n, n, n, n], [1, 2, 3, n - 1], [n / 5, 2 * (n / 5), 3 * (n / 5), 4 * (n / 5)]].into_iter().enumerate() {
+                if n > (1 << 31) && (ci == 1 || ci == 2) {
+                    continue; // above 2^32 bytes (a length held in 32 bits wraps): two splits are enough, each costs ~1 minute
+                }
                 check_split(&report, &data, c, &salt, &key);
             }
             // the last byte matters
